@@ -53,7 +53,7 @@ def sh(cmd, timeout, cwd=ROOT, env=None, stdin=None):
         out = ex.stdout or ""
         if isinstance(out, bytes):
             out = out.decode(errors="replace")
-        return 124, out + "\n[timeout after %ss]" % timeout
+        return 124, (out[:-1] if out.endswith("\n") else out) + "\n[timeout after %ss]" % timeout
 
 
 # ---------------------------------------------------------------------------
